@@ -1055,6 +1055,31 @@ int CBigComplexLinProb::KludgeSolve(int flag)
     return 1;
 }
 
+#ifdef XFEMM_VERIF
+// verification hook: append (kind, n, true relative residual, Precision, status) of every
+// solve to the file named by the environment variable XFEMM_VERIF_SOLVELOG
+static int xfemm_verif_csolvelog(CBigComplexLinProb *L, int status)
+{
+    const char *fn = getenv("XFEMM_VERIF_SOLVELOG");
+    if (fn == NULL || L->n == 0 || L->bNewton) return status;
+    CComplex *t = (CComplex *)calloc(L->n, sizeof(CComplex));
+    L->MultA(L->V, t);
+    double rr = 0, bb = 0;
+    for (int i = 0; i < L->n; i++)
+    {
+        CComplex d = L->b[i] - t[i];
+        rr += d.re * d.re + d.im * d.im;
+        bb += L->b[i].re * L->b[i].re + L->b[i].im * L->b[i].im;
+    }
+    free(t);
+    FILE *f = fopen(fn, "a");
+    if (f == NULL) return status;
+    fprintf(f, "complex %i %.17g %.17g %i\n", L->n, (bb == 0) ? sqrt(rr) : sqrt(rr / bb), L->Precision, status);
+    fclose(f);
+    return status;
+}
+#endif
+
 // Entry point into linear solvers.
 // Calls PCGSQStart to do a small number of iterations,
 // moving the starting point for PBCG away from the
@@ -1077,5 +1102,8 @@ int CBigComplexLinProb::PBCGSolveMod(int flag,bool verbose)
 
 
     // call the complex-symmetric solver
+#ifdef XFEMM_VERIF
+    return xfemm_verif_csolvelog(this, PBCGSolve(2));
+#endif
     return PBCGSolve(2);
 }
